@@ -46,7 +46,10 @@ func (FingerprintAttr) AddTo(m *Message) error {
 	m.Length += fingerprintSize + attributeHeaderSize // increasing length
 	m.WriteLength()                                   // writing Length to Raw
 	b := make([]byte, fingerprintSize)
-	val := FingerprintValue(m.Raw)
+	// m.Raw can hold bytes after the message, they are not covered.
+	end := messageHeaderSize + int(l)
+	m.grow(end)
+	val := FingerprintValue(m.Raw[:end])
 	bin.PutUint32(b, val)
 	m.Length = l
 	m.Add(AttrFingerprint, b)
